@@ -278,18 +278,26 @@ func cmdC06(args []string) {
 	// nesting: "*1\r\n" repeated n times, complete (a leaf follows) or cut off; far deeper than any stack allows
 	id := len(inputs)
 	if *exh > 0 {
-		for _, n := range []int{10, 1000, 9999, 10000, 10001, 100000, 6000000} {
-			for _, tail := range []string{":1\r\n", ""} {
-				g := bigGen{Gen: "nest", Unit: "*1\r\n", N: n, Tail: tail}
-				res := runGen(g, *vm)
-				id++
-				rec.Begin(id)
-				alive := res != nil
-				if res == nil {
-					res = []Val{}
+		// each level is "*1" or a two-element array whose first element is a complete sibling (a null or empty array, a null
+		// bulk, an integer): depth bookkeeping that a sibling's early return disturbs must not un-count the nesting
+		for ui, unit := range []string{"*1\r\n", "*2\r\n*-1\r\n", "*2\r\n$-1\r\n", "*2\r\n*0\r\n", "*2\r\n:1\r\n"} {
+			depths := []int{10, 1000, 9999, 10000, 10001, 100000, 6000000}
+			if ui > 0 {
+				depths = []int{1000, 10001, 6000000}
+			}
+			for _, n := range depths {
+				for _, tail := range []string{":1\r\n", ""} {
+					g := bigGen{Gen: "nest", Unit: unit, N: n, Tail: tail}
+					res := runGen(g, *vm)
+					id++
+					rec.Begin(id)
+					alive := res != nil
+					if res == nil {
+						res = []Val{}
+					}
+					rec.Emit(Ev{"ev": "hostilebig", "gen": g.Gen, "n": g.N, "complete": tail != "", "res": res, "alive": alive,
+						"src": "nesting", "input": B([]byte(fmt.Sprintf("(%q) x %d%s", unit, g.N, map[bool]string{true: " :1 CRLF", false: ""}[tail != ""])))})
 				}
-				rec.Emit(Ev{"ev": "hostilebig", "gen": g.Gen, "n": g.N, "complete": tail != "", "res": res, "alive": alive,
-					"src": "nesting", "input": B([]byte(fmt.Sprintf("(*1 CRLF) x %d%s", g.N, map[bool]string{true: " :1 CRLF", false: ""}[tail != ""])))})
 			}
 		}
 	}
